@@ -1,12 +1,17 @@
 #!/bin/bash
-# lib/seedprocess.sh <round-letter> : collect finished seeds of a round from /tmp/seed<r>-Cxx/_seed, run them against the checks, confirm them
-r=$1; cd /verif
+# lib/seedprocess.sh <round-letter> [jobs] : collect finished seeds of a round from /tmp/seed<r>-Cxx/_seed, run them against the
+# checks and confirm them (up to <jobs> seeds at a time); one log per seed under run/seedlog/
+r=$1; j=${2:-3}; cd /verif; mkdir -p run/seedlog
+one() { id=$1; p=$2; d=$3
+  { lib/seedrun.py $id 2>&1 | grep -E "^==|VIOLATION|PATCH" | head -3; lib/seedconfirm.sh $id $p $d; } > run/seedlog/$id.log 2>&1
+  grep -hE "^==|^confirmed" run/seedlog/$id.log; }
 for d in /tmp/seed$r-C*; do
   p=$(basename $d | sed "s/seed$r-//"); id=seed-$p-$r
   [ -f $d/_seed/README.md ] && [ -f $d/_seed/patch.diff ] || continue
   [ -f seeded/$id/patch.diff ] && continue
   mkdir -p seeded/$id; cp $d/_seed/patch.diff seeded/$id/; cp $d/_seed/zz_seed_demo_test.go seeded/$id/zz_seed_demo_test.go.txt 2>/dev/null; cp $d/_seed/README.md seeded/$id/
   [ -f seeded/$id/meta.json ] || echo "{\"id\":\"$id\",\"property\":\"$p\"}" > seeded/$id/meta.json
-  lib/seedrun.py $id 2>&1 | grep -E "^==|VIOLATION|PATCH" | head -2
-  lib/seedconfirm.sh $id $p $d
+  while [ $(jobs -r | wc -l) -ge $j ]; do sleep 5; done
+  one $id $p $d &
 done
+wait
